@@ -28,8 +28,9 @@ Proof. exact @proc_targeton_frame. Qed.
 
 (* the side conditions, on the source as it is now: every table written while a targeton is processed (call graph
    from proc_targeton over sge_proc/targeton/queries/meta_table) is in PER_TARGETON_TABLES; the clear of exactly
-   that set is the first statement of proc_targeton; proc_contig starts by clearing PER_CONTIG_TABLES and whatever
-   else it writes is a per-contig table, `exons` or `sgrna_ids`; the cDNA proc_targeton clears both sets; the two sets
+   that set is the first statement of proc_targeton; proc_contig starts by clearing PER_CONTIG_TABLES and every table it
+   writes is a per-targeton or per-contig one (`exons` and `sgrna_ids` included since a068862: before, a second annotated contig
+   failed on their unique indexes); the cDNA proc_targeton clears both sets; the two sets
    are disjoint and name existing tables *)
 Theorem C13_written_tables_cleared :
   fact_extracted = true /\
@@ -37,7 +38,7 @@ Theorem C13_written_tables_cleared :
   sge_proc_targeton_first = ["clear_per_targeton_tables"]%string /\
   sge_proc_contig_first = ["clear_per_contig_tables"]%string /\
   cdna_proc_targeton_first = ["clear_per_contig_tables"; "clear_per_targeton_tables"]%string /\
-  subset_s sge_contig_writes (per_targeton_tables ++ per_contig_tables ++ ["exons"; "sgrna_ids"]%string) = true /\
+  subset_s sge_contig_writes (per_targeton_tables ++ per_contig_tables) = true /\
   disjoint_s per_contig_tables per_targeton_tables = true /\
   subset_s (per_contig_tables ++ per_targeton_tables) ddl_tables = true.
 Proof. vm_compute. repeat split. Qed.
